@@ -72,6 +72,13 @@ def _job_from_spec(spec):
         files = {"base/base.h": "\n".join(base) + "\n", "user/user.h": "\n".join(user) + "\n"}
         return [("base", common.igate_job("base", files, ["base.h"], be, opts=opts, srcdir="src/base")),
                 ("user", common.igate_job("user", files, ["user.h"], be, opts=opts, srcdir="src/user", incs=["src/base"]))]
+    if spec["kind"] == "own":
+        # one of the project's own headers, everything exported (-promiscuous): real code nobody wrote for the occasion
+        d, fn = spec["header"].split("/")
+        with open(os.path.join(build.REPO, "src", d, fn), "rb") as f:
+            data = f.read().decode("latin-1")
+        incs = [os.path.join(build.REPO, "src", x) for x in ("interrogatedb", "dtoolutil", "dtoolbase", "cppparser", "interrogate")]
+        return [("own", common.igate_job("own", {fn: data}, [fn], be, opts=opts + (["-promiscuous"] if "-promiscuous" not in opts else []), incs=incs))]
     if spec["kind"] == "pipeline":
         libs = common.libs_fixture()
         steps = []
@@ -140,6 +147,11 @@ def generate(ctx):
             spec = {"kind": "pipeline", "backend": be, "opts": [o for o in opts if o != "-do-module"]}
         else:
             spec = {"kind": "gen", "backend": be, "opts": opts, "hseed": rng.next(), "n_classes": rng.range(1, 10), "n_macros": rng.range(0, 12)}
+        if i % 6 == 5:
+            spec = {"kind": "own", "backend": be, "opts": opts,
+                    "header": rng.choice(["interrogatedb/interrogateType.h", "interrogatedb/interrogateDatabase.h", "interrogatedb/interrogate_interface.h", "interrogatedb/interrogate_request.h",
+                                          "dtoolutil/filename.h", "dtoolutil/dSearchPath.h", "cppparser/cppScope.h", "cppparser/cppPreprocessor.h", "cppparser/cppExpression.h",
+                                          "cppparser/cppStructType.h", "interrogate/functionRemap.h", "interrogate/interfaceMakerPythonNative.h", "interrogate/typeManager.h"])}
         if i % 3 == 1:
             spec["files_first"] = True      # the file arguments ahead of the options: what POSIXLY_CORRECT changes the meaning of
         sde = rng.choice(SDE_CHOICES)
